@@ -170,6 +170,14 @@ def install():
     writers.open = patched_open
     nml.etree_ = EtreeProxy(nml.etree_)
 
+    # the XML that the HDF5 writer embeds is written into an io.StringIO: its writes are file-layer calls too
+    class CountingStringIO(io.StringIO):
+        def write(self, s):
+            INJ.hit("StringIO.write")
+            return super().write(s)
+
+    io.StringIO = CountingStringIO
+
 
 # ------------------------------------------------------------------------------------------- documents
 def build_doc(spec):
@@ -229,7 +237,21 @@ def build_doc(spec):
         doc.morphology.append(make_am(m.get("n", 3), m.get("mid")))
     for h in spec.get("includes", []):
         doc.includes.append(neuroml.IncludeType(href=h))
+    if spec.get("bad_component"):
+        doc.iaf_cells.append("not a component")  # a construct no format can hold: export raises by itself
     return doc
+
+
+def remove_cause(doc):
+    """for natural failures: take out what the format cannot hold, so that the retry has no reason to fail"""
+    if not isinstance(doc, neuroml.NeuroMLDocument):
+        return
+    doc.iaf_cells = [c for c in doc.iaf_cells if not isinstance(c, str)]
+    for n in doc.networks:
+        n.explicit_inputs = []
+        n.synaptic_connections = []
+    doc.networks = doc.networks[:1]  # the HDF5 layout holds one network
+    doc.morphology = []
 
 
 def make_am(n, mid):
@@ -255,7 +277,7 @@ def dump(o, depth=0):
     if hasattr(o, "__dict__") and type(o).__module__.startswith("neuroml"):
         d = {"__class__": type(o).__name__}
         for k, v in sorted(vars(o).items()):
-            if k in SKIP or v is None or v == []:
+            if k in SKIP or v is None or (isinstance(v, list) and not v):
                 continue
             d[k] = dump(v, depth + 1)
         return d
@@ -440,6 +462,7 @@ def observe(op, fault_at, kind):
     # measured while the exception (and the frames it references) is still alive
     if getattr(op, "caller_handle", None) is not None:
         base_fd = sorted(base_fd + [op.caller_handle._f.name])
+        rec["caller_handle_closed"] = bool(op.caller_handle._f.closed)  # close=False: the handle is the caller's
     lt = [x for x in open_tables() if x not in base_t]
     lf = list(open_fds(op.tmp))
     for x in base_fd:
@@ -456,8 +479,10 @@ def observe(op, fault_at, kind):
     if rec["doc_changed"]:
         rec["doc_diff"] = first_diff(before, after)
     # retry on the same document, cause removed
-    if rec["raised"] and INJ.fired is not None:
+    if rec["raised"] and (INJ.fired is not None or fault_at is None):
         op.after_call()
+        if INJ.fired is None:
+            remove_cause(op.doc)
         INJ.reset(None)
         INJ.active = True
         try:
@@ -494,6 +519,8 @@ def run_op(spec):
             ks = [k for k in ks if 0 <= k < n]
         else:
             ks = [k for k in want if k < n]
+        if dry["raised"]:
+            ks = []  # the call fails by itself: that run is the case; later call indices do not exist
         for kind in spec.get("kinds", ["OSError"]):
             for k in ks:
                 out["faults"].append(observe(op, k, kind))
